@@ -24,6 +24,7 @@ type hBundle struct {
 	Prev   int  `json:"prev"`   // received bundles: index of the previous node (-1 = no previous-node block)
 	TsKind int  `json:"tskind"` // 0 = now, 1 = the same creation time as bundle 0, 2 = zero creation time + age block
 	Copies int  `json:"copies,omitempty"`
+	OwnSrc bool `json:"own_src,omitempty"` // received bundles: the source is this node (a bundle of ours that a relay hands back)
 }
 
 type hCase struct {
@@ -108,6 +109,9 @@ func (w *hWorld) build(i int) bpv7.Bundle {
 	src := vfNodeName + "app"
 	if !pl.Local {
 		src = fmt.Sprintf("dtn://remote%d/app", i)
+		if pl.OwnSrc {
+			src = vfNodeName + fmt.Sprintf("app%d", i)
+		}
 	}
 	bl := bpv7.Builder().CRC(bpv7.CRC32).Source(src).Destination(dest).Lifetime("1h").BundleCtrlFlags(0)
 	switch pl.TsKind {
